@@ -28,6 +28,7 @@ func c13(c *Ctx) {
 	sQuorum(c, "R5/S-QUORUM")
 	c13R6(c, "R6")
 	sMainSendsBuffered(c, "R7/S-MAINSEND")
+	sLockDiscipline(c, "R8/S-LOCK", "Raft", "followerReplication")
 }
 
 // c13R6: the follower side of "a healthy cluster keeps one leader and one
